@@ -39,7 +39,7 @@ TECHNIQUE = "Lean 4 theorems over the sort-and-adjacent-check model + extractor-
 
 def base_spec(rng):
     while True:
-        spec = vcfgen.simple_file(rng, nrec=rng.choice([12, 20, 30]), ncontig=rng.choice([1, 2]), samples=rng.choice([0, 2]),
+        spec = vcfgen.simple_file(rng, nrec=rng.choice([20, 30, 40]), ncontig=rng.choice([1, 2, 3]), samples=rng.choice([0, 2]),
                                   unused_contigs=False, span=rng.choice([200_000, 2_000_000]), long_refs=False)
         recs = spec["records"]
         # strictly increasing positions inside a contig make the cut classes unambiguous
@@ -157,26 +157,37 @@ def classify(v):
 
 def cut_classes(ctx, work, k):
     rng = ctx.rng
-    spec = base_spec(rng)
-    recs = spec["records"]
-    n = len(recs)
-    # work inside the first contig for the overlap classes
-    c0 = [r for r in recs if r["contig"] == recs[0]["contig"]]
-    rest = [r for r in recs if r["contig"] != recs[0]["contig"]]
-    m = len(c0)
-    if m < 8:
+    while True:
+        spec = base_spec(rng)
+        recs = spec["records"]
+        later = [c for c in {r["contig"] for r in recs} if c > recs[0]["contig"] and sum(x["contig"] == c for x in recs) >= 8]
+        if k % 2 == 0 or later:
+            break
+    # the overlap classes are built inside one contig — not necessarily the first: the files then also hold whole
+    # other contigs before and/or after it
+    by_contig = {}
+    for r in recs:
+        by_contig.setdefault(r["contig"], []).append(r)
+    cands = [c for c, rs in by_contig.items() if len(rs) >= 8]
+    if not cands:
         return
+    ci = cands[0] if k % 2 == 0 else rng.choice(later)
+    c0 = by_contig[ci]
+    before = [r for r in recs if r["contig"] < ci]
+    rest = [r for r in recs if r["contig"] > ci]
+    ctx.count("overlap_on_first_contig" if not before else "overlap_after_a_contig_change")
+    m = len(c0)
     a, b = m // 3, 2 * m // 3
     tag = f"c{k}"
-    attempt(ctx, spec, [c0[:a], c0[a:b], c0[b:] + rest], work, tag + "d", "disjoint", False)
+    attempt(ctx, spec, [before + c0[:a], c0[a:b], c0[b:] + rest], work, tag + "d", "disjoint", False)
     for oi in (False, True):
         sfx = "O" if oi else ""
-        attempt(ctx, spec, [c0[:b], c0[a:] + rest], work, tag + "o" + sfx, "overlapping", True, old_index=oi)
-        attempt(ctx, spec, [c0[:a + 1], c0[a:] + rest], work, tag + "t" + sfx, "touching (shared position)", True, old_index=oi)
-        attempt(ctx, spec, [c0 + rest, c0[a:b]], work, tag + "n" + sfx, "nested", True, old_index=oi)
-        attempt(ctx, spec, [c0[:b], c0[:b]], work, tag + "i" + sfx, "identical ranges", True, old_index=oi)
+        attempt(ctx, spec, [before + c0[:b], c0[a:] + rest], work, tag + "o" + sfx, "overlapping", True, old_index=oi)
+        attempt(ctx, spec, [before + c0[:a + 1], c0[a:] + rest], work, tag + "t" + sfx, "touching (shared position)", True, old_index=oi)
+        attempt(ctx, spec, [before + c0 + rest, c0[a:b]], work, tag + "n" + sfx, "nested", True, old_index=oi)
+        attempt(ctx, spec, [before + c0[:b], c0[:b]], work, tag + "i" + sfx, "identical ranges", True, old_index=oi)
     for target in ((2, 4, 8, 16) if ctx.thorough else (2, 8)):
-        attempt(ctx, spec, [c0[:a] + c0[b:] + rest, c0[a:b]], work, tag + f"x{target}", "interleaved", True, target=target)
+        attempt(ctx, spec, [before + c0[:a] + c0[b:] + rest, c0[a:b]], work, tag + f"x{target}", "interleaved", True, target=target)
 
 
 def k2_witness(ctx, work):
